@@ -14,6 +14,11 @@ for p, path in zip(parts, sys.argv[4:]):
     cov["samples"] += [{"part": name, "case": s} for s in c.get("samples", [])[:3]]
     cov["parts"][name] = {k: v for k, v in c.items() if k not in ("samples", "rule")}
     cov["parts"][name]["wall_s"] = p.get("wall_s")
+    for k in ("programs", "disagreements_checked", "states", "transitions", "traces_validated_against_impl"):
+        if isinstance(c.get(k), int):
+            cov[k] = cov.get(k, 0) + c[k]
+    if "exhaustive" in c:
+        cov["exhaustive"] = cov.get("exhaustive", True) and bool(c["exhaustive"])
     for a in p.get("assumptions", []):
         if a not in assumptions:
             assumptions.append(a)
